@@ -233,8 +233,13 @@ fn write_local_var<T>(vm: &mut Vm<T>, handle: u32, value: Value, offset: usize) 
     vm.runtime_data
         .value_stack
         .set(offset + handle as usize, value)
-        .map_err(|err| {
-            ExecutionErrorPayload::VarNotFound(format!("Failed to set local variable: {}", err))
+        .map_err(|err| match err {
+            // the local would get its slot now, but the value stack is exhausted
+            crate::collections::value_stack::StackError::Full => ExecutionErrorPayload::Stackoverflow,
+            _ => ExecutionErrorPayload::VarNotFound(format!(
+                "Failed to set local variable: {}",
+                err
+            )),
         })?;
     Ok(())
 }
